@@ -120,12 +120,16 @@ func (x *run) minmax() (uint32, uint32) {
 
 // newTx builds a valid GAS transfer from the validators' multisig account (valid on every node at the same height).
 func (x *run) newTx() *transaction.Transaction {
+	return x.newTxVUB(x.c.Nodes[0].BC.BlockHeight() + 50)
+}
+
+func (x *run) newTxVUB(vub uint32) *transaction.Transaction {
 	n0 := x.c.Nodes[0]
 	e := x.c.Net.Executor(x.t, n0.BC)
 	x.ntx++
 	to := util.Uint160{byte(x.ntx), 7}
 	tx := e.NewUnsignedTx(x.t, e.NativeHash(x.t, nativenames.Gas), "transfer", e.Validator.ScriptHash(), to, int64(1000+x.ntx), nil)
-	tx.ValidUntilBlock = n0.BC.BlockHeight() + 50
+	tx.ValidUntilBlock = vub
 	tx.Nonce = uint32(x.ntx*1000 + x.id)
 	return e.SignTx(x.t, tx, 1_0000000, []neotest.Signer{e.Validator}...)
 }
@@ -178,6 +182,10 @@ func (x *run) adversarial(sched []mstep, extra int) {
 			x.timeout(x.r.Intn(x.c.N))
 		case p < 17:
 			tx := x.newTx()
+			if x.r.Intn(2) == 0 {
+				// short-lived transaction: expires at the next block or the one after it
+				tx = x.newTxVUB(x.c.Nodes[0].BC.BlockHeight() + 1 + uint32(x.r.Intn(2)))
+			}
 			x.txs = append(x.txs, tx)
 			var to []int
 			for i := range x.c.Nodes {
@@ -206,6 +214,84 @@ func (x *run) adversarial(sched []mstep, extra int) {
 			x.emit(map[string]any{"event": "silent", "set": set})
 		}
 	}
+}
+
+// starved is an asynchronous period in which EVERY direct payload of one type is lost (they are delivered late, in the
+// synchronous phase that follows) while everything else, the recovery traffic included, is delivered promptly and timers
+// fire when nothing else can happen; optionally the primary of view 0 is silent for the first half, so that the height
+// is decided in a later view.  What the lost payloads carried has to arrive through RecoveryMessages.
+func (x *run) starved(typ string, primarySilent bool, rounds int) {
+	_, mx := x.minmax()
+	H := mx + 1
+	x.silent = map[int]bool{}
+	if primarySilent {
+		p := x.c.NodeOfValidator(int(H) % x.c.N)
+		x.silent[p] = true
+		x.emit(map[string]any{"event": "silent", "set": []int{p}})
+	}
+	start := x.c.NMsgs()
+	for round := 0; round < rounds && x.fatal == nil; round++ {
+		if round == rounds/2 && len(x.silent) > 0 {
+			x.silent = map[int]bool{}
+			x.emit(map[string]any{"event": "silent", "set": []int{}})
+		}
+		moved := false
+		for id := start; id < x.c.NMsgs(); id++ {
+			m := x.c.Msg(id)
+			if m.Type == typ {
+				continue
+			}
+			for to := range x.c.Nodes {
+				if !x.given[id][to] && m.From != to && !x.silent[to] {
+					x.deliver(id, to)
+					moved = true
+				}
+			}
+		}
+		x.c.ServeTxRequests()
+		x.observe()
+		if mn, _ := x.minmax(); mn >= H {
+			break
+		}
+		if !moved {
+			v, err := x.c.FireEarliest(x.silent)
+			if err != nil {
+				x.fatal = err
+			}
+			x.emit(map[string]any{"event": "timeout", "node": v, "fired": v >= 0, "earliest": true})
+			x.observe()
+		}
+	}
+	x.res.Inc("starved_phases", 1)
+}
+
+// runStarve: warm-up, then two (starved period, synchronous phase) pairs.
+func runStarve(t *testing.T, res *vh.Result, tr *vh.Trace, id int, n int, typ string, primarySilent bool) error {
+	dir, err := os.MkdirTemp(os.Getenv("VERIF_WORK"), "c19")
+	if err != nil {
+		return err
+	}
+	defer os.RemoveAll(dir)
+	x := &run{t: t, tr: tr, res: res, r: vh.Rand(int64(id)), silent: map[int]bool{}, given: map[int]map[int]bool{}, id: id}
+	c, err := NewCluster(n, dir, func(ev map[string]any) { tr.Emit(ev) })
+	if err != nil {
+		return err
+	}
+	x.c = c
+	x.lastH = make([]uint32, n)
+	defer c.Close()
+	tr.Emit(map[string]any{"event": "init", "run": id, "n": n, "f": c.F, "m": n - c.F, "starved": typ, "primary_silent": primarySilent})
+	c.Start()
+	x.synchronous(1, 6*n, false)
+	for phase := 0; phase < 2 && x.fatal == nil; phase++ {
+		x.starved(typ, primarySilent, 12*n)
+		if !x.synchronous(2, 6*n, true) {
+			break
+		}
+	}
+	x.feedAll()
+	res.Traces++
+	return x.fatal
 }
 
 // synchronous: everybody honest, everything delivered, timers fire when nothing else can happen.
@@ -461,6 +547,22 @@ func TestDriver(t *testing.T) {
 		if err := runSync(t, res, tr, 2000+i, n); err != nil {
 			tr.Close()
 			t.Fatalf("sync run %d: %v", i, err)
+		}
+	}
+	// one payload type lost at a time, with and without a silent first primary
+	k := 0
+	for _, n := range []int{4, 7} {
+		if n == 7 && os.Getenv("VERIF_TIER") != "thorough" {
+			continue
+		}
+		for _, typ := range []string{"Commit", "PrepareResponse", "PrepareRequest", "ChangeView"} {
+			for _, ps := range []bool{true, false} {
+				if err := runStarve(t, res, tr, 3000+k, n, typ, ps); err != nil {
+					tr.Close()
+					t.Fatalf("starved run %d (%s, %v): %v", k, typ, ps, err)
+				}
+				k++
+			}
 		}
 	}
 	n7 := vh.EnvInt("VERIF_N7", 1)
